@@ -56,6 +56,14 @@ def setup_tree(root):
             f.write(c)
     os.makedirs(os.path.join(root, "work"))
     os.makedirs(os.path.join(root, "tmp"))
+    # a minimal OSTree-style repository
+    commit = "ab" * 32
+    os.makedirs(os.path.join(root, "ostree", "refs", "heads"))
+    os.makedirs(os.path.join(root, "ostree", "objects", commit[:2]))
+    with open(os.path.join(root, "ostree", "refs", "heads", "main"), "w") as f:
+        f.write(commit + "\n")
+    with open(os.path.join(root, "ostree", "objects", commit[:2], commit[2:] + ".commit"), "wb") as f:
+        f.write(b"commit object")
 
 
 def make_calls(root):
@@ -80,6 +88,20 @@ def make_calls(root):
             return fn()
         return run
     calls["record/base_setting"] = with_setting(lambda: rl.record_artifacts_as_dict(["."]))
+    # (thorough tier) more combinations of entry point x base path x failure
+    calls["record/ostree_ok"] = lambda: rl.record_artifacts_as_dict(["ostree:main"], base_path=os.path.join(root, "ostree"))
+    calls["match_products/base_setting_collision"] = with_setting(lambda: rl.in_toto_match_products(
+        __import__("in_toto.models.link", fromlist=["Link"]).Link(name="l", products={}), paths=["x", "sub/y"], lstrip_paths=["x", "sub/y"]))
+    calls["match_products/base_setting"] = with_setting(lambda: rl.in_toto_match_products(
+        __import__("in_toto.models.link", fromlist=["Link"]).Link(name="l", products={"x": {"sha256": "00"}}), paths=["."]))
+    calls["record_start/collision"] = lambda: rl.in_toto_record_start("st3", ["x", "sub/y"], base_path=base, signer=k.signer,
+                                                                     lstrip_paths=["x", "sub/y"])
+    calls["run/collision_products"] = lambda: rl.in_toto_run("st4", ["."], ["x", "sub/y"], [sys.executable, "-c", "pass"], base_path=base,
+                                                            signer=k.signer, lstrip_paths=["x", "sub/y"])
+    calls["run/base_setting"] = with_setting(lambda: rl.in_toto_run("st5", ["."], ["."], [sys.executable, "-c", "pass"], signer=k.signer,
+                                                                    metadata_directory=os.path.join(root, "work")))
+    calls["run/timeout"] = lambda: rl.in_toto_run("st6", ["."], ["."], [sys.executable, "-c", "import time; time.sleep(20)"],
+                                                  record_streams=True, base_path=base, signer=k.signer, timeout=1)
     cmd_ok = [sys.executable, "-c", "print('out'); import sys; print('err', file=sys.stderr)"]
     calls["run/streams"] = lambda: rl.in_toto_run("st", ["."], ["."], cmd_ok, record_streams=True, base_path=base, signer=k.signer,
                                                   metadata_directory=os.path.join(root, "work"))
@@ -171,7 +193,7 @@ def run_once(name, root, fault_at=None):
     raised = None
     try:
         # shapes that set a setting do so inside the call wrapper: take the snapshot after a dry assignment
-        if name == "record/base_setting":
+        if name.split("/")[-1].startswith("base_setting"):
             st.ARTIFACT_BASE_PATH = os.path.join(root, "base")
         before = None
         with contextlib.redirect_stdout(io.StringIO()), contextlib.redirect_stderr(io.StringIO()):
@@ -365,8 +387,12 @@ SHAPES_QUICK = ["record/base_arg", "record/base_arg_two_paths", "record/no_base"
                 "record_start_stop", "record_stop/no_preliminary", "match_products"] + list(VERIFY_SHAPES)
 
 
+SHAPES_THOROUGH = SHAPES_QUICK + ["record/ostree_ok", "match_products/base_setting_collision", "match_products/base_setting",
+                                  "record_start/collision", "run/collision_products", "run/base_setting", "run/timeout"]
+
+
 def run(tier, seed):
-    return core.parallel(core.call, [(run_shape, (s,)) for s in SHAPES_QUICK])
+    return core.parallel(core.call, [(run_shape, (s,)) for s in (SHAPES_QUICK if tier == "quick" else SHAPES_THOROUGH)])
 
 
 def replay(case):
